@@ -1053,9 +1053,12 @@ def ccm_mac_is(k, M, nonce, aad, msg, t):
     i = z3.Int(fresh_name('i'))
     # the same statement at a symbolic position (the disjunction is valid for 0 <= i < 16; it hands the solver the
     # case split that connects a symbolic position with the literal ones)
-    sym = z3.ForAll([i], z3.Implies(z3.And(0 <= i, i < M.t, z3.Or([i == q for q in range(16)]),
-                                           Unfold((S.len_(B) / 16 - 1).t)),
-                                    sat(t.t, i) == sat(last.t, i)), patterns=[sat(t.t, i)])
+    body = z3.Implies(z3.And(0 <= i, i < M.t, z3.Or([i == q for q in range(16)]), Unfold((S.len_(B) / 16 - 1).t)),
+                      sat(t.t, i) == sat(last.t, i))
+    try:
+        sym = z3.ForAll([i], body, patterns=[sat(t.t, i)])
+    except z3.Z3Exception:            # t is not an admissible trigger term (goal side: no trigger needed)
+        sym = z3.ForAll([i], body)
     return S.And(S.len_(t) == M, vb(sym),
                  *[S.implies((M > q) & vb(Unfold((S.len_(B) / 16 - 1).t)), at(t, q) == at(last, q))
                    for q in range(16)])
@@ -1503,8 +1506,12 @@ contract(U + 'poly1305.py:Poly1305.le_bytes_to_num',
 
 def le16(x):
     """16 bytes, little-endian, of x mod 2^128"""
-    x = _lift(x)
-    return S.cat([VInt((x.t / (1 << (8 * i))) % 256) for i in range(16)])
+    x = _lift(x).t
+    out = []
+    for i in range(16):                 # byte i = floor(x / 256^i) mod 256, written as i successive divisions by 256
+        out.append(VInt(x % 256))       # (floor(floor(x/a)/b) == floor(x/(a*b)) for positive a, b)
+        x = x / 256
+    return S.cat(out)
 
 
 contract(U + 'poly1305.py:Poly1305.num_to_16_le_bytes',
@@ -1536,3 +1543,304 @@ contract(U + 'poly1305.py:Poly1305.create_tag',
          prop=PROP,
          doc='tag = low 128 bits (little-endian) of acc_n + s, acc_{i+1} = ((acc_i + le(block_i || 01)) * r) mod 2^130-5 over '
              'the 16-byte blocks of data (the last one may be shorter)')
+
+
+# ---------------------------------------------------------------------------
+# ChaCha20-Poly1305 AEAD (RFC 8439 2.8).  The ChaCha20 stream layer (ChaCha.__init__ word conversion and
+# ChaCha.encrypt block splitting) is abstract here: ChaChaX(key, nonce, counter, data) = data xor key stream
+# (the block function itself is verified above; the stream layer is covered by the bounded run `chacha`).
+import tlslite.utils.chacha20_poly1305 as CP
+
+ChaChaX = S.uf('ChaChaX', [Seq, Seq, I, Seq], Seq, seq_ext=[0, 1, 3])
+
+
+def _chx_axioms():
+    k, n, d = z3.Consts('xk xn xd', Seq)
+    c = z3.Int('xc')
+    x = ChaChaX(k, n, c, d)
+    return [FA([k, n, c, d], z3.And(slen(x) == slen(d), z3.Implies(isb(d), isb(x))), [x]),
+            # xor with a key stream that depends on (key, nonce, counter) only: applying it twice gives the data back
+            FA([k, n, c, d], z3.Implies(isb(d), ChaChaX(k, n, c, x) == d), [ChaChaX(k, n, c, x)])]
+
+
+smt.AXIOMS.extend(_chx_axioms())
+from pyvc.contract import EXT_PAIRS as _EXT_PAIRS
+_EXT_PAIRS.append(('ChaChaX', 3, 'ChaChaX'))     # the data argument may be (extensionally) a ChaChaX output: involution
+
+
+class _ChaChaStreamModel(object):
+    def getattr(self, ex, v, name, st):
+        if name in ('encrypt', 'decrypt'):
+            def f(ex_, args, kw, st_, fr, node, v=v):
+                d = args[0]
+                if not isinstance(d, VSeq):
+                    raise Unsupported('ChaCha.%s(%r)' % (name, d))
+                h = st_.heap
+                out = VSeq(ChaChaX(h[(v.oid, 'key')].t, h[(v.oid, 'nonce')].t, h[(v.oid, 'counter')].t, d.t), 'byte', 'bytearray')
+                st_.assume(z3.And(slen(out.t) == slen(d.t), isb(out.t) == isb(d.t)))
+                return [Outcome('normal', st_, out)]
+            from pyvc.executor import SpecFn
+            return VPy(SpecFn(f, name))
+        return None
+
+
+REG.models['ChaChaStream'] = _ChaChaStreamModel()
+
+
+def _chacha_ctor(ex, args, kwargs, st, fr, node):
+    key, nonce = args[0], args[1]
+    counter = args[2] if len(args) > 2 else kwargs.get('counter', VInt(0))
+    if not (isinstance(key, VSeq) and isinstance(nonce, VSeq)):
+        raise Unsupported('ChaCha(%r, %r)' % (key, nonce))
+    res = []
+    ok, bad = ex.split(st, z3.And(slen(key.t) == 32, slen(nonce.t) == 12))
+    if bad is not None:
+        res.append(ex.raise_(bad, ValueError, 'ChaCha key/nonce length line %d' % getattr(node, 'lineno', 0)))
+    if ok is not None:
+        o = ok.alloc('ChaChaStream')
+        ok.heap[(o.oid, 'key')] = key
+        ok.heap[(o.oid, 'nonce')] = nonce
+        ok.heap[(o.oid, 'counter')] = ex._as_int(counter)
+        res.append(Outcome('normal', ok, o))
+    return res
+
+
+REG.class_models[CHA.ChaCha] = _chacha_ctor
+
+CP_OBJ = T.obj(CP.CHACHA20_POLY1305, key=T.bytes())
+
+
+def chx(key, nonce, counter, data):
+    return VSeq(ChaChaX(key.t, nonce.t, _lift(counter).t, data.t), 'byte')
+
+
+def _cp_pad16(x):
+    """zero bytes up to the next multiple of 16 (none if already aligned)"""
+    n = S.len_(x)
+    return S.rep(0, S.ite(n % 16 == 0, 0, 16 - n % 16))
+
+
+def le64(x):
+    x = _lift(x)
+    return S.cat([VInt((x.t / (1 << (8 * i))) % 256) for i in range(8)])
+
+
+def cp_mac_data(aad, ct):
+    return S.cat(aad, _cp_pad16(aad), ct, _cp_pad16(ct), le64(S.len_(aad)), le64(S.len_(ct)))
+
+
+def poly_tag(otk, msg):
+    """Poly1305 tag of msg under the 32-byte one-time key otk (VSeq)"""
+    r = VInt(smt.band(le_val(otk[0:16]).t, z3.IntVal(CLAMP)))
+    s_ = le_val(otk[16:32])
+    return le16(poly_acc(r, 0, msg, _nblocks16(S.len_(msg))) + s_)
+
+
+def cp_tag(key, nonce, aad, ct):
+    otk = chx(key, nonce, 0, S.rep(0, 32))            # first 32 bytes of the key stream block with counter 0
+    return poly_tag(otk, cp_mac_data(aad, ct))
+
+
+LEN64 = 1 << 64
+
+
+def _cp_req(ns, inp):
+    return S.And(S.len_(ns.f(ns.self, 'key')) == 32, S.len_(inp) < LEN64, S.len_(ns.data) < LEN64)
+
+
+contract(U + 'chacha20_poly1305.py:CHACHA20_POLY1305.seal',
+         params={'self': CP_OBJ, 'nonce': T.bytes(), 'plaintext': T.bytes(), 'data': T.bytes()},
+         requires=lambda ns: _cp_req(ns, ns.plaintext),
+         result=T.bytes(),
+         raises={ValueError: ('iff', lambda ns: S.len_(ns.nonce) != 12)},
+         ensures=lambda ns: (lambda key, ct: S.And(
+             S.len_(ns.result) == S.len_(ns.plaintext) + 16, S.is_bytes(ns.result),
+             ns.result == S.cat(ct, cp_tag(key, ns.nonce, ns.data, ct))))(
+                 ns.f(ns.self, 'key'), chx(ns.f(ns.self, 'key'), ns.nonce, 1, ns.plaintext)),
+         prop=PROP,
+         doc='RFC 8439 2.8: seal = C || T, C = ChaCha20(key, nonce, counter 1) xor P, one-time key = first 32 bytes of '
+             'the counter-0 block, T = Poly1305(otk, A || pad16 || C || pad16 || le64(len A) || le64(len C))')
+
+
+def _cp_open_post(ns):
+    key = ns.f(ns.self, 'key')
+    c = ns.ciphertext
+    ct, tag = c[:-16], c[-16:]
+    want = cp_tag(key, ns.nonce, ns.data, ct)
+    if isinstance(ns.result, VNone):
+        return S.Or(S.len_(c) < 16, tag != want)
+    return S.And(S.len_(c) >= 16, tag == want, ns.result == chx(key, ns.nonce, 1, ct))
+
+
+contract(U + 'chacha20_poly1305.py:CHACHA20_POLY1305.open',
+         params={'self': CP_OBJ, 'nonce': T.bytes(), 'ciphertext': T.bytes(), 'data': T.bytes()},
+         requires=lambda ns: _cp_req(ns, ns.ciphertext),
+         result=T.bytes(),
+         raises={ValueError: ('iff', lambda ns: S.len_(ns.nonce) != 12)},
+         ensures=_cp_open_post,
+         prop=('C09', 'C02'),
+         doc='open returns None exactly when the input is shorter than a tag or its last 16 bytes differ (as a whole) '
+             'from the Poly1305 tag recomputed over (nonce, aad, ciphertext); only otherwise the ChaCha20 decryption')
+
+
+@scenario('chacha20poly1305-open-seal', ('C09', 'C02'),
+          doc='CHACHA20_POLY1305: open(nonce, seal(nonce, P, A), A) == P for every P, A, 12-byte nonce (ChaCha20 stream '
+              'layer abstract: xor with a key stream determined by key, nonce, counter)', opts={'prune': False})
+def cp_open_seal(api):
+    snd, rcv = api.make('snd', CP_OBJ), api.make('rcv', CP_OBJ)
+    api.st.heap[(rcv.oid, 'key')] = api.st.heap[(snd.oid, 'key')]
+    nonce, p, a = api.make('nonce', T.bytes()), api.make('p', T.bytes()), api.make('a', T.bytes())
+    ns = api.ns(api.st)
+    api.st.assume(S.And(S.len_(nonce) == 12, S.len_(ns.f(snd, 'key')) == 32, S.len_(p) < LEN64 - 16, S.len_(a) < LEN64))
+    for o in api.call(U + 'chacha20_poly1305.py:CHACHA20_POLY1305.seal', [snd, nonce, p, a], api.st, inline=False):
+        if o.kind != 'normal':
+            api.unreachable(o.st, 'seal-does-not-raise')
+            continue
+        for o2 in api.call(U + 'chacha20_poly1305.py:CHACHA20_POLY1305.open', [rcv, nonce, o.val, a], o.st.fork()):
+            if o2.kind != 'normal':
+                api.unreachable(o2.st, 'open-does-not-raise')
+            elif isinstance(o2.val, VNone):
+                api.unreachable(o2.st, 'open-accepts-untouched-ciphertext')
+            else:
+                # shown from the facts known right after seal (a subset of this path's facts: fewer assumptions,
+                # same conclusion); the returned value is a term over the sealed output
+                api.oblige(o.st, 'plaintext-equal', S.And(S.len_(o2.val) == S.len_(p), S.seq_eq(o2.val, p)))
+
+
+# ---------------------------------------------------------------------------
+# GCM bit-level helpers (bit-vector mode).  Field elements are 128-bit integers with the coefficient of x^0 in
+# the most significant bit (SP 800-38D 6.3).
+GW = 140
+
+
+def _bit(v, i):
+    return z3.Extract(i, i, v.t)
+
+
+contract(U + 'aesgcm.py:AESGCM._reverseBits',
+         params={'i': T.int()}, mode='bv', width=GW,
+         requires=lambda ns: (ns.i >= 0) & (ns.i < 16), result=T.int(),
+         ensures=lambda ns: vb(z3.And([_bit(ns.result, k) == _bit(ns.i, 3 - k) for k in range(4)] +
+                                      [z3.Extract(GW - 1, 4, ns.result.t) == 0])),
+         prop=PROP, doc='reversal of the 4 low bits')
+
+contract(U + 'aesgcm.py:AESGCM._gcmAdd',
+         params={'x': T.int(), 'y': T.int()}, mode='bv', width=GW, result=T.int(),
+         ensures=lambda ns: vb(ns.result.t == (ns.x.t ^ ns.y.t)),
+         prop=PROP, doc='addition in GF(2^128) is bit-wise xor')
+
+
+def _gcm_shift_spec(x):
+    """SP 800-38D 6.3 (multiplication by the polynomial x): V >> 1, xor R = 11100001 || 0^120 if the bit of x^127
+    (the least significant bit) was set"""
+    R = z3.BitVecVal(0xe1 << 120, GW)
+    return z3.If(z3.Extract(0, 0, x) == 1, z3.LShR(x, 1) ^ R, z3.LShR(x, 1))
+
+
+contract(U + 'aesgcm.py:AESGCM._gcmShift',
+         params={'x': T.int()}, mode='bv', width=GW,
+         requires=lambda ns: vb(z3.And(ns.x.t >= 0, z3.ULT(ns.x.t, z3.BitVecVal(TWO128, GW)))), result=T.int(),
+         ensures=lambda ns: vb(z3.And(ns.result.t == _gcm_shift_spec(ns.x.t),
+                                      z3.ULT(ns.result.t, z3.BitVecVal(TWO128, GW)))),
+         prop=PROP, doc='multiplication by x in GF(2^128) = GF(2)[x]/(x^128+x^7+x^2+x+1), GCM bit order')
+
+
+# ---------------------------------------------------------------------------
+# bounded differential runs (specs/ciphers.py) -- never counted as proved
+def _more_budget(c, factor):
+    """these bodies unroll 16-step inner loops (about 300 path facts); the solver resource limit is scaled"""
+    orig = c.verify
+    c.verify = lambda reg, budget_ms=10000: orig(reg, int(budget_ms * factor))
+
+
+for _c in REG.contracts[U + 'python_aes.py:Python_AES.encrypt'] + REG.contracts[U + 'python_aes.py:Python_AES.decrypt']:
+    _more_budget(_c, 4)
+
+
+for _name, _fn in (('aes_block', 'rijndael.py:Rijndael.encrypt'), ('aes_cbc', 'python_aes.py:Python_AES.encrypt'),
+                   ('aes_ctr', 'python_aes.py:Python_AES_CTR.encrypt'), ('gcm_mul', 'aesgcm.py:AESGCM._mul'),
+                   ('aesgcm', 'aesgcm.py:AESGCM.seal'), ('aesccm', 'aesccm.py:AESCCM.seal'),
+                   ('chacha', 'chacha.py:ChaCha.encrypt'), ('poly1305', 'poly1305.py:Poly1305.create_tag'),
+                   ('chacha20poly1305', 'chacha20_poly1305.py:CHACHA20_POLY1305.seal')):
+    REG.xchecks.append({'prop': 'C09', 'module': 'specs.ciphers', 'name': _name, 'function': U + _fn})
+for _name, _fn in (('aesgcm', 'aesgcm.py:AESGCM.open'), ('aesccm', 'aesccm.py:AESCCM.open'),
+                   ('chacha20poly1305', 'chacha20_poly1305.py:CHACHA20_POLY1305.open')):
+    REG.xchecks.append({'prop': 'C02', 'module': 'specs.ciphers', 'name': _name, 'function': U + _fn})
+
+_N = lambda kind, text: REG.note('C09', kind, text)
+_N('trusted', 'AES block function (rijndael.py Rijndael.encrypt/decrypt, 16-byte blocks) is the uninterpreted AesE/AesD(k, b0..b15) '
+   'with the single algebraic assumption AesD(k, AesE(k, x)) == x on byte blocks and output length 16; the key schedule and '
+   'the T-table rounds are covered only by the bounded run specs.ciphers:aes_block against a plain FIPS-197 implementation')
+_N('trusted', 'the abstract key k of a Rijndael object stands for Rijndael(key, 16) built from the key bytes; AESGCM/AESCCM use one key for '
+   'their raw block function, CTR object and CBC object (python_aesgcm.new / python_aesccm.new / __init__ wiring read, not verified)')
+_N('trusted', 'AESGCM._mul(y) is the uninterpreted GMul(h, y) = y*H in GF(2^128) with range [0, 2^128) (AssertionError outside it); the product '
+   'table construction in __init__ and the 4-bit reduction table are covered only by the bounded run specs.ciphers:gcm_mul against '
+   'the bit-wise field multiplication; _reverseBits/_gcmShift/_gcmAdd are proved in bit-vector arithmetic')
+_N('trusted', 'ChaCha20 stream layer (ChaCha.__init__ little-endian word conversion, ChaCha.encrypt 64-byte block splitting with counter+i, '
+   'word_to_bytearray) is abstract in the AEAD proofs: ChaChaX(key, nonce, counter, data) with length preservation and '
+   'ChaChaX(k,n,c,ChaChaX(k,n,c,x)) == x; covered by the bounded run specs.ciphers:chacha; the block function '
+   '(quarter_round, double_round, chacha_block) is proved against RFC 8439 in 64-bit vectors')
+_N('trusted', 'bytearray in-place growth: `data += ...` inside AESCCM._pad_with_zeroes and the in-place list update of '
+   'ChaCha.double_round change the caller\'s object; modelled by rebinding the caller\'s local variable (only call sites passing a '
+   'plain local name are accepted)')
+_N('trusted', 'hmac.compare_digest(a, b) == (a == b) on byte strings (the definition of ct_compare_digest in force under Python >= 3.3); '
+   'bytearray != bytearray in AESCCM.open is content comparison')
+_N('trusted', 'integer <-> bytes helpers: int.from_bytes / numberToByteArray modelled as s_val / s_be (pyvc/smt.py, pyvc/models_crypto.py); '
+   'added facts: s_be(2^128, 16) == s_be(0, 16) element-wise (numberToByteArray keeps the low-order bytes), value of a 16-byte block '
+   '< 2^128 and re-encoding gives the block back; xor lemmas (involution, commutativity, byte/128-bit range, '
+   'or == + on disjoint 64-bit halves) proved in bit-vector arithmetic at import')
+_N('trusted', 'spec functions introduced by definitional axioms (primitive recursion / explicit definition, conservative): CbcC/CbcP (CBC chain), '
+   'CtrT/CtrKS/CtrX (counter blocks, key stream, CTR transformation), GFold/GUpd (GHASH), CcmB (CCM block string), LeS, PolyAcc; '
+   'trigger markers MkJ/MkU/MkD are constant-zero functions used only to steer quantifier instantiation')
+_N('trusted', 'ChaCha.double_round: the staged proof introduces cut constants for the state after every quarter round; its last conjunct is '
+   'the plain statement under the definitions of these fresh constants (equivalent to the unconditional statement); '
+   'ChaCha.chacha_block eliminates the cut constants of the ten double_round applications by substitution (let-elimination) before '
+   'the solver is called')
+_N('assumptions', 'Python_AES_CTR.encrypt/decrypt: precondition _counter_bytes == 0 and a 16-byte counter (the only construction in the tree: '
+   'python_aes.new(key, 6, 16 zero bytes) by AESGCM and AESCCM, which set .counter before every use); the overflow rule for a '
+   'dedicated counter field is stated and proved on _counter_update alone')
+_N('assumptions', 'AES-GCM: len(plaintext) <= 2^36 - 32 bytes and len(aad) < 2^61 (SP 800-38D limits); within them the 128-bit counter increment '
+   'used by the code coincides with inc32 (the low word starts at 2 and takes at most 2^32 - 2 steps) -- this coincidence is an '
+   'arithmetic remark, not a discharged obligation')
+_N('assumptions', 'AES-CCM: nonce length 12 (L = 3, enforced by seal/open), tagLength in {8, 16}, len(msg) < 2^24 (RFC 3610 l(m) < 2^(8L)), '
+   'len(aad) < 2^61; the message key stream is specified as CTR from A_1 := inc(A_0) (equal to 02 || nonce || [i]_3 while i < 2^24)')
+_N('assumptions', 'AEAD "refuses every other ciphertext/nonce/AAD combination" is stated as: open returns None unless the recomputed tag '
+   'equals the received one in all of its bytes (an attacker-chosen collision of the tag is a cryptographic matter, not expressible '
+   'over uninterpreted primitives); open(seal(x)) == x is proved for all three AEADs')
+_N('assumptions', 'ChaCha20: 32-bit words, block counter < 2^32 (chacha_block requires it; ChaCha.encrypt does not reduce counter + i mod 2^32, '
+   'RFC 8439 leaves the wrap undefined); Poly1305: acc, r, s non-negative')
+_N('not_built', 'ChaCha.encrypt / ChaCha.__init__ / word_to_bytearray / _bytearray_to_words (enumerate over a generator of slices, '
+   'struct.pack with *args, struct.unpack): no deductive contract, bounded run specs.ciphers:chacha only')
+_N('not_built', 'AESGCM.__init__ product table construction and AESGCM._mul against the bit-level GF(2^128) definition (planned in bit-vector mode): '
+   'bounded run specs.ciphers:gcm_mul only; AESGCM._inc32 is dead code (not called) and has no contract')
+_N('not_built', 'Python_AES / Python_AES_CTR / AESGCM / AESCCM / CHACHA20_POLY1305 constructors (key-length checks, name selection) and the '
+   'cipherfactory wiring; Python_RC4 / Python_TripleDES chaining frames (DESIGN C09) are not in this module')
+REG.note('C02', 'trusted', 'AEAD open(): see the C09 notes of contracts/ciphers.py (abstract block cipher, GHASH multiplication, ChaCha20 stream layer, '
+         'compare_digest == equality)')
+REG.note('C02', 'assumptions', 'AEAD open() contracts: None is returned unless the whole tag matches (GCM / ChaCha20-Poly1305: 16 bytes via '
+         'compare_digest; CCM: all tagLength bytes via bytearray !=); for GCM the CTR counter is untouched on refusal')
+
+
+def consistency_witnesses():
+    """ground terms exercising the axioms added by this module (pyvc.smt.axioms_consistency_selftest)"""
+    k = z3.Const('cw_k', Val)
+    a, b = z3.Consts('cw_a cw_b', Seq)
+    big = smt.s_single(z3.IntVal(300))
+    bs = [z3.IntVal(7)] * 16
+    wide = [z3.IntVal(300)] * 16
+    e = AesE(k, *bs)
+    ts = [e, AesD(k, *[sat(e, z3.IntVal(t)) for t in range(16)]), AesE(k, *wide), AesD(k, *wide),
+          CbcC(k, a, b, z3.IntVal(-1)), CbcC(k, a, b, z3.IntVal(0)), CbcC(k, a, big, z3.IntVal(1)), CbcP(k, a, b, z3.IntVal(0)),
+          CtrT(*(bs + [z3.IntVal(0)])), CtrT(*(wide + [z3.IntVal(0)])), CtrT(*(bs + [z3.IntVal(2)])), CtrKS(k, *(bs + [z3.IntVal(1)])),
+          CtrX(k, *(bs + [a])), CtrX(k, *(wide + [big])), CcmB(z3.IntVal(8), a, b, a), ChaChaX(a, b, z3.IntVal(1), big),
+          ChaChaX(a, b, z3.IntVal(1), ChaChaX(a, b, z3.IntVal(1), a)), smt.s_be(z3.IntVal(TWO128), z3.IntVal(16))]
+    ints = [GMul(k, z3.IntVal(5)), GMul(k, z3.IntVal(-1)), GFold(k, z3.IntVal(3), big, z3.IntVal(2)), GUpd(k, z3.IntVal(3), big),
+            LeS(big, z3.IntVal(0)), LeS(a, z3.IntVal(1)), PolyAcc(z3.IntVal(3), z3.IntVal(0), big, z3.IntVal(2)),
+            smt.bxor(smt.bxor(z3.IntVal(300), z3.IntVal(-5)), z3.IntVal(-5)), smt.bor(z3.IntVal(1 << 64), z3.IntVal(5)),
+            smt.s_val(a), smt.s_diff(a, b), MkJ(z3.IntVal(1)), MkU(z3.IntVal(2)), MkD(a)]
+    return ([slen(t) >= 0 for t in ts] + [sat(t, z3.IntVal(0)) == sat(t, z3.IntVal(0)) for t in ts] + [x == x for x in ints] +
+            [slen(a) == 16, isb(a), slen(b) == 33, isb(b), MkU(z3.IntVal(0)) == 0, MkU(z3.IntVal(1)) == 0, MkJ(z3.IntVal(0)) == 0])
+
+
+_orig_cw = S.consistency_witnesses
+S.consistency_witnesses = lambda: _orig_cw() + consistency_witnesses()
